@@ -101,6 +101,14 @@ CHECKS = {
          "orders, and every signal must simulate to the reference value.",
          "Trusted: vt/irref.py driver propagation and the role table in c08.expected_nets. Sets it finds illegal are skipped (C09's domain). Quick tier takes every third triple family.",
          "DESIGN.md 6.C08", "E1 E2"),
+ "C09": ("exploration",
+         "bounded exhaustive enumeration of small designs with at most one structural defect (and every defect-free sibling) x statement orders x hash permutations; verdict vs independent bit-level driver / port-rule analysis",
+         "About 1100 designs: two writes to one carrier over all access-shape pairs (whole, overlapping/adjacent/contained slices, bits, fields, nested fields, list elements with constant and "
+         "variable index, struct with list field) by the same block, two comb blocks, comb+ff, comb+lambda, block+net (from input, constant, driven wire), net+net, child/parent/grand-parent "
+         "positions; undriven nets, connection loops, duplicate connections, overlapping slice nets; every port rule Type 1-9 and the loop-back rule with its legal counterpart; every "
+         "assignment operator in update / update_ff on whole signals, list elements, slices, fields. elaborate() must raise the class the analysis predicts, or nothing.",
+         "Trusted: c09.analyze (per-bit driver sets, net source propagation, port-direction table). Designs with several simultaneous defects are not generated.",
+         "DESIGN.md 6.C09", "E1 E2"),
 }
 
 NOT_YET = {}
